@@ -111,6 +111,11 @@ func (store *Store) Put(ctx context.Context, key string, content []byte) error {
 	// We can't improve much on what we get by wrapping the stream interface;
 	//  we always end up using a streaming action on the very bottom because that's how file writing works
 	//   (especially since we care about controlling the write flow enough to be able to do the atomic move at the end).
+	if key == "" {
+		// The empty key is the committer's signal to abandon a write, and it has no file name:
+		// refuse it rather than report a successful put that stored nothing.
+		return fmt.Errorf("fsstore: cannot put under an empty key")
+	}
 	wr, wrCommitter, err := store.PutStream(ctx)
 	if err != nil {
 		return err
